@@ -1,15 +1,23 @@
 """C26, deductive part: `RpcNode.request` on the real AST over a SYMBOLIC response sequence.
 
 Externals by contract (ghost-recording): `requests.request` returns the next response of the sequence (any status
-code, any transient verdict), `sleep(d)` records d, `_is_transient_response(res)` returns the response's ghost verdict
-(its own definition is checked in the bounded part C26_R), `RpcError.from_response(res)` returns an error tagged with
-the response.  `range(TRANSIENT_RETRY_ATTEMPTS)` is a constant bound, so unrolling is complete.
-Obligations (all status codes, all verdicts):
-   request i+1 is sent  <=>  response i has status >= 500 and is transient and i < 5      (exactly the transient failures)
+code, any transient verdict) OR fails without a response (ConnectionError / Timeout, any attempt), `sleep(d)` records d,
+`_is_transient_response(res)` returns the response's ghost verdict (its own definition is checked below over body shapes and
+in the bounded part C26_R), `RpcError.from_response(res)` returns an error tagged with the response.
+`range(TRANSIENT_RETRY_ATTEMPTS)` is a constant bound, so unrolling is complete.
+Two scenarios (the property quantifies over requests, not over fresh node objects):
+   fresh   a new RpcNode; the HTTP method is a ghost string (a comparison with a literal forks), no request kwargs
+   reused  the SAME RpcNode object has already served a retried success and a request that exhausted the attempt limit
+           (delay at its cap, RpcError raised); then a POST with params / json / timeout kwargs
+Obligations (all status codes, all verdicts, both scenarios):
+   request i+1 is sent  <=>  attempt i produced a response with status >= 500 that is transient, and i < 5
    at most 6 requests; the delays are 0.25, 0.5, 1.0, 2.0, 2.0 (non-decreasing, capped at 2.0), one sleep per retry
+       (numbers written here, not read from the module constants)
    outcome: the LAST response decides: 200 -> that response is returned; 401/404 -> RpcError(Unauthorized/Not found);
-            otherwise RpcError.from_response(last response).
+            otherwise RpcError.from_response(last response);
+            a transport failure (no response) is never followed by another request and reaches the caller.
 """
+import ast
 import z3
 from vlib.pyvc import Engine, RaiseEx, Sym, Obj, Z, ZB, Unsupported, Opaque
 from vlib.pyvc.engine import BoundM
@@ -19,8 +27,8 @@ from vlib.pyvc.report import report, run_harness, functions_interpreted
 class GResp:
     __pyvc_symbolic__ = True
 
-    def __init__(self, i, status, transient):
-        self.i, self.status, self.transient = i, status, transient
+    def __init__(self, i, status, transient, raises=None):
+        self.i, self.status, self.transient, self.raises = i, status, transient, raises
 
     def __pyvc_attr__(self, eng, name):
         if name == 'status_code':
@@ -42,29 +50,75 @@ class _K:
         return self.v
 
 
-def harness():
+class GMethod:
+    """the HTTP method as a ghost string: any comparison of it with a literal forks on an input boolean (`method_is_<literal>`),
+    so a code path that singles out one method is explored for that method AND for every other one"""
+    __pyvc_symbolic__ = True
+    __pyvc_strlike__ = True
+
+    def __init__(self):
+        self.lits = {}
+
+    def __pyvc_isinstance__(self, cs):
+        return str in cs
+
+    def __pyvc_cmp__(self, eng, op, other, refl):
+        if isinstance(op, (ast.Eq, ast.NotEq)) and isinstance(other, str) and not getattr(other, '__pyvc_symbolic__', False):
+            if other not in self.lits:
+                b = z3.Bool(f'method_is_{other}')
+                eng.inputs[f'method_is_{other}'] = ('bool', b)
+                for o2 in self.lits.values():               # a string equals at most one literal
+                    eng.assume(z3.Not(z3.And(b, o2)))
+                self.lits[other] = b
+            b = self.lits[other]
+            return Sym(b if isinstance(op, ast.Eq) else z3.Not(b))
+        return NotImplemented
+
+    def __pyvc_attr__(self, eng, name):
+        if name in ('upper', 'strip'):
+            return _K(self)
+        raise Unsupported('method.' + name)
+
+
+# request 2 and 3 of the "reused node" scenario are preceded by these two CONCRETE requests on the same RpcNode object:
+#   (a) three transient failures, then success (the node has slept 0.25, 0.5, 1.0)
+#   (b) six transient failures: the attempt limit is reached with the delay at its cap, and the request raises
+PRELUDE = [[(503, True), (500, True), (599, True), (200, False)],
+           [(500, True)] * 6]
+SCENARIOS = ('fresh', 'reused')
+DELAYS = [0.25, 0.5, 1.0, 2.0, 2.0]         # the property's numbers, written out (NOT read from TRANSIENT_RETRY_*)
+
+
+def harness(scn='fresh'):
     from pytezos.rpc import node as N
     import requests, json, time, pprint
+    import requests.exceptions as RX
+    tag = 'RpcNode.request' if scn == 'fresh' else 'RpcNode.request[same node object, after a retried success and a retried failure]'
 
     def h(e: Engine):
-        resps = [GResp(i, e.int(f'status{i}', lo=100, hi=599).e, e.bool(f'transient{i}').e) for i in range(8)]
-        sent, slept = [], []
+        cur = {}
 
         def do_request(eng, args, kwargs):
+            resps, sent = cur['resps'], cur['sent']
             if len(sent) >= len(resps):
                 raise Unsupported('more than 8 requests')
             sent.append(dict(kwargs))
-            return resps[len(sent) - 1]
+            r = resps[len(sent) - 1]
+            # the transport may fail instead of producing a response (connection refused, read timeout): any attempt, either class
+            if r.raises is not None and eng.fork(r.raises):
+                cur['raised'] = RX.ConnectionError(f'ghost transport failure {r.i}') if len(sent) % 2 else RX.Timeout(f'ghost timeout {r.i}')
+                raise RaiseEx(cur['raised'])
+            return r
 
         def do_sleep(eng, args, kwargs):
-            slept.append(args[0])
+            cur['slept'].append(args[0])
             return None
 
         def is_transient(eng, args, kwargs):
             return Sym(args[0].transient)
 
         def from_response(eng, args, kwargs):
-            return N.RpcError(('from_response', args[-1].i))
+            return N.RpcError(('from_response', id(cur['resps']), args[-1].i))
         e.stub(requests.request, do_request)
         e.stub(N.sleep, do_sleep)
         e.stub(N._is_transient_response, is_transient)
@@ -74,56 +128,82 @@ def harness():
         node = Obj(N.RpcNode)
         node.f['uri'] = ['http://node']
         node.f['headers'] = {}
-        out = exc = None
-        try:
-            out = e.call(BoundM(N.RpcNode.__dict__['request'], node), ['GET', 'chains/main'], {})
-        except RaiseEx as ex:
-            exc = ex.exc
-        k = len(sent)
-        e.check('RpcNode.request::ensures.at_least_one_and_at_most_6_attempts', z3.BoolVal(1 <= k <= 6))
-        if not 1 <= k <= 6:
-            return
-        for i in range(k - 1):
-            e.check(f'RpcNode.request::ensures.resend_only_after_transient_5xx[{i}]', z3.And(resps[i].status >= 500, resps[i].transient))
-        if k < 6:
-            e.check('RpcNode.request::ensures.transient_5xx_is_retried(below the attempt limit)',
-                    z3.Not(z3.And(resps[k - 1].status >= 500, resps[k - 1].transient)))
-        want_delays = [0.25, 0.5, 1.0, 2.0, 2.0][:k - 1]
-        if slept != want_delays and __import__('os').environ.get('C26_DEBUG'):
-            print('DEBUG slept', slept, 'k', k)
-        e.check('RpcNode.request::ensures.delays==0.25*2^i capped at 2.0, one per retry', z3.BoolVal(slept == want_delays))
-        e.check('RpcNode.request::ensures.delays_non_decreasing_and_capped',
-                z3.BoolVal(all(a <= b for a, b in zip(slept, slept[1:])) and all(d <= 2.0 for d in slept)))
-        e.check('RpcNode.request::ensures.same_request_resent', z3.BoolVal(all(s == sent[0] for s in sent)))
-        last = resps[k - 1]
-        if exc is None:
-            e.check('RpcNode.request::returns.only_if(last status == 200)', last.status == 200)
-            e.check('RpcNode.request::returns.the_last_response', z3.BoolVal(out is last))
+
+        def one_request(resps, method, kwargs):
+            cur.clear()
+            cur.update(resps=resps, sent=[], slept=[], raised=None)
+            out = exc = None
+            try:
+                out = e.call(BoundM(N.RpcNode.__dict__['request'], node), [method, 'chains/main'], dict(kwargs))
+            except RaiseEx as ex:
+                exc = ex.exc
+            sent, slept = cur['sent'], cur['slept']
+            k = len(sent)
+            e.check(f'{tag}::ensures.at_least_one_and_at_most_6_attempts', z3.BoolVal(1 <= k <= 6))
+            if not 1 <= k <= 6:
+                return
+            for i in range(k - 1):
+                e.check(f'{tag}::ensures.resend_only_after_transient_5xx[{i}]',
+                        z3.And(resps[i].status >= 500, resps[i].transient,
+                               z3.Not(resps[i].raises) if resps[i].raises is not None else z3.BoolVal(True)))
+            want_delays = DELAYS[:k - 1]
+            if slept != want_delays and __import__('os').environ.get('C26_DEBUG'):
+                print('DEBUG slept', slept, 'k', k)
+            e.check(f'{tag}::ensures.delays==0.25*2^i capped at 2.0, one per retry', z3.BoolVal(slept == want_delays))
+            e.check(f'{tag}::ensures.delays_non_decreasing_and_capped',
+                    z3.BoolVal(all(a <= b for a, b in zip(slept, slept[1:])) and all(d <= 2.0 for d in slept)))
+            e.check(f'{tag}::ensures.same_request_resent', z3.BoolVal(all(s == sent[0] for s in sent)))
+            last = resps[k - 1]
+            if cur['raised'] is not None:
+                # no response at all for the last attempt: nothing may be re-sent (k stops here) and the caller sees the failure
+                e.check(f'{tag}::ensures.transport_failure_is_not_retried_and_propagates', z3.BoolVal(exc is cur['raised']))
+                return
+            if k < 6:
+                e.check(f'{tag}::ensures.transient_5xx_is_retried(below the attempt limit)',
+                        z3.Not(z3.And(last.status >= 500, last.transient)))
+            if exc is None:
+                e.check(f'{tag}::returns.only_if(last status == 200)', last.status == 200)
+                e.check(f'{tag}::returns.the_last_response', z3.BoolVal(out is last))
+            else:
+                e.check(f'{tag}::raises.only_if(last status != 200)', last.status != 200)
+                ok_cls = isinstance(exc, N.RpcError)
+                e.check(f'{tag}::raises.RpcError_class', z3.BoolVal(ok_cls))
+                if ok_cls:
+                    a = exc.args[0] if exc.args else None
+                    is401 = isinstance(a, str) and a.startswith('Unauthorized')
+                    is404 = isinstance(a, str) and a.startswith('Not found')
+                    isfr = isinstance(a, tuple) and a == ('from_response', id(resps), last.i)
+                    e.check(f'{tag}::raises.error_of_the_last_response',
+                            z3.And(z3.BoolVal(is401) == (last.status == 401), z3.BoolVal(is404) == (last.status == 404),
+                                   z3.BoolVal(isfr) == z3.And(last.status != 401, last.status != 404)))
+
+        if scn == 'reused':
+            e.int('scenario_reused_node', lo=1, hi=1)
+            for j, pre in enumerate(PRELUDE):
+                one_request([GResp(i, z3.IntVal(st), z3.BoolVal(tr)) for i, (st, tr) in enumerate(pre)] + [GResp(9, z3.IntVal(200), z3.BoolVal(False))],
+                            'GET' if j else 'POST', {} if j else {'json': Opaque('<json body>')})
+        resps = [GResp(i, e.int(f'status{i}', lo=100, hi=599).e, e.bool(f'transient{i}').e, e.bool(f'raises{i}').e) for i in range(8)]
+        if scn == 'fresh':
+            one_request(resps, GMethod(), {})
         else:
-            e.check('RpcNode.request::raises.only_if(last status != 200)', last.status != 200)
-            ok_cls = isinstance(exc, N.RpcError)
-            e.check('RpcNode.request::raises.RpcError_class', z3.BoolVal(ok_cls))
-            if ok_cls:
-                a = exc.args[0] if exc.args else None
-                is401 = isinstance(a, str) and a.startswith('Unauthorized')
-                is404 = isinstance(a, str) and a.startswith('Not found')
-                isfr = isinstance(a, tuple) and a == ('from_response', last.i)
-                e.check('RpcNode.request::raises.error_of_the_last_response',
-                        z3.And(z3.BoolVal(is401) == (last.status == 401), z3.BoolVal(is404) == (last.status == 404),
-                               z3.BoolVal(isfr) == z3.And(last.status != 401, last.status != 404)))
+            one_request(resps, 'POST', {'params': Opaque('<params>'), 'json': Opaque('<json body>'), 'timeout': 5})
     return h
 
 
 def native(case):
-    """replay a status/verdict sequence on the real RpcNode with requests.request and sleep monkeypatched"""
+    """replay a status/verdict/transport-failure sequence on the real RpcNode with requests.request and sleep monkeypatched"""
     from pytezos.rpc import node as N
     import requests
+    import requests.exceptions as RX
     seq = []
     for i in range(8):
         st = case.get(f'status{i}')
         if st is None:
             break
-        seq.append((int(st), bool(case.get(f'transient{i}', False))))
+        seq.append((int(st), bool(case.get(f'transient{i}', False)), bool(case.get(f'raises{i}', False))))
+    reused = bool(case.get('scenario_reused_node'))
+    method = 'POST' if reused else ('GET' if case.get('method_is_GET', False) else next(
+        (k[len('method_is_'):] for k, v in case.items() if k.startswith('method_is_') and v), 'PATCH'))
 
     class R:
         def __init__(self, i, st, tr):
@@ -133,37 +213,55 @@ def native(case):
 
         def json(self):
             return [{'id': 'node.x', 'kind': 'temporary' if self.tr else 'permanent'}]
-    sent, slept = [], []
     orig_req, orig_sleep = requests.request, N.sleep
-    try:
+    node = N.RpcNode('http://node')
+
+    def one(seq, method):
+        sent, slept = [], []
+
         def fake(**kw):
-            st, tr = seq[len(sent)] if len(sent) < len(seq) else (200, False)
+            st, tr, rs = seq[len(sent)] if len(sent) < len(seq) else (200, False, False)
             r = R(len(sent), st, tr)
             sent.append(r)
+            if rs:
+                r.exc = RX.ConnectionError('replayed transport failure')
+                raise r.exc
             return r
         requests.request = fake
         N.sleep = lambda d: slept.append(d)
         out = exc = None
         try:
-            out = N.RpcNode('http://node').request('GET', 'x')
-        except N.RpcError as ex:
-            exc = ex
+            out = node.request(method, 'x')
         except Exception as ex:   # noqa
-            return True, f'raised {ex!r}'
+            exc = ex
+        k = 0
+        while k < 5 and k < len(seq) and seq[k][0] >= 500 and seq[k][1] and not seq[k][2]:
+            k += 1
+        want_sent = k + 1
+        st_last, _, rs_last = seq[want_sent - 1] if want_sent - 1 < len(seq) else (200, False, False)
+        if len(sent) != want_sent:
+            return True, f'{method} responses {seq}: {len(sent)} requests sent, specification {want_sent}'
+        if slept != DELAYS[:want_sent - 1]:
+            return True, f'{method} responses {seq}: delays {slept}'
+        if rs_last:
+            if exc is not sent[-1].exc:
+                return True, f'{method} responses {seq}: transport failure at the last attempt, outcome {"returned" if exc is None else repr(exc)}'
+            return False, 'ok'
+        if exc is not None and not isinstance(exc, N.RpcError):
+            return True, f'{method} responses {seq}: raised {exc!r}'
+        if (exc is None) != (st_last == 200) or (exc is None and out is not sent[-1]):
+            return True, f'{method} responses {seq}: outcome {"returned" if exc is None else repr(exc)} for last status {st_last}'
+        return False, 'ok'
+    try:
+        if reused:
+            for j, pre in enumerate(PRELUDE):
+                bad, info = one([(st, tr, False) for st, tr in pre], 'GET' if j else 'POST')
+                if bad:
+                    return True, f'request {j + 1} on the node: ' + info
+        bad, info = one(seq, method)
+        return bad, ('after two earlier requests on the same node: ' if reused else '') + info
     finally:
         requests.request, N.sleep = orig_req, orig_sleep
-    k = 0
-    while k < 5 and k < len(seq) and seq[k][0] >= 500 and seq[k][1]:
-        k += 1
-    want_sent = k + 1
-    st_last = seq[want_sent - 1][0] if want_sent - 1 < len(seq) else 200
-    if len(sent) != want_sent:
-        return True, f'responses {seq}: {len(sent)} requests sent, specification {want_sent}'
-    if slept != [0.25, 0.5, 1.0, 2.0, 2.0][:want_sent - 1]:
-        return True, f'responses {seq}: delays {slept}'
-    if (exc is None) != (st_last == 200) or (exc is None and out is not sent[-1]):
-        return True, f'responses {seq}: outcome {"returned" if exc is None else repr(exc)} for last status {st_last}'
-    return False, 'ok'
 
 
 def replay(case):
@@ -180,6 +278,33 @@ ELEMS = {
     'node-permanent': {'id': 'node.bad', 'kind': 'permanent'},
     'no-id-temporary': {'kind': 'temporary'},
     'not-a-dict': 'oops',
+    # shapes added by the input-widening audit: missing 'kind', empty dict, falsy non-dict, an id that merely LOOKS like a
+    # protocol id (no 'proto.' prefix), a kind that is not a string, extra fields
+    'node-no-kind': {'id': 'node.mempool.busy'},
+    'proto-no-kind': {'id': 'proto.alpha.gas_exhausted.operation'},
+    'empty-dict': {},
+    'none': None,
+    'protolike-temporary': {'id': 'protocol_violation.x', 'kind': 'temporary'},
+    'kind-null-node': {'id': 'node.x', 'kind': None, 'msg': ['temporary']},
+}
+# CANDIDATE_DEFECT (kept OUT of the registered enumeration): an error whose 'id' is not a string makes the classifier raise
+# AttributeError instead of answering (err.get('id', '').startswith on None / int).  Outside the property's alphabet (octez ids are
+# strings), reported by the audit; enable with C26_CANDIDATE=1 to see it.
+CANDIDATE_DEFECT_ELEMS = {
+    'id-null-temporary': {'id': None, 'kind': 'temporary'},
+    'id-int-temporary': {'id': 17, 'kind': 'temporary'},
+}
+if __import__('os').environ.get('C26_CANDIDATE'):
+    ELEMS.update(CANDIDATE_DEFECT_ELEMS)
+# JSON bodies that are not error lists, and bodies that are not JSON
+BODIES = {
+    'none': None,                                    # json() raises, text is an HTML page
+    'empty': None,                                   # json() raises, text is empty
+    'dict': {'error': 'x'},
+    'dict-temporary': {'id': 'node.x', 'kind': 'temporary'},      # a single error NOT wrapped in a list: not an error list
+    'null': None,                                    # json() returns None
+    'string': 'temporary',
+    'zero': 0,
 }
 
 
@@ -187,7 +312,7 @@ def spec_transient(ctype, body_kind, elems, text_marker):
     """the property: a 5xx response is transient iff its errors are temporary and not protocol errors, or a prevalidator failure"""
     if ctype == 'application/json' and body_kind == 'list':
         ds = [ELEMS[x] for x in elems if isinstance(ELEMS[x], dict)]
-        if any(d.get('id', '').startswith('proto.') for d in ds):
+        if any(isinstance(d.get('id'), str) and d['id'].startswith('proto.') for d in ds):     # an id that is no string is no protocol id
             return False
         if any(d.get('kind') == 'temporary' for d in ds):
             return True
@@ -198,20 +323,25 @@ def native_classifier(case):
     import json
     from pytezos.rpc import node as N
     ctype, body_kind, elems, marker = case['ctype'], case['body_kind'], case['elems'], case['marker']
-    body = [ELEMS[x] for x in elems] if body_kind == 'list' else {'error': 'x'} if body_kind == 'dict' else None
-    text = (json.dumps(body) if body is not None else '<html>Internal error</html>') + (' Assert_failure src/lib_shell/prevalidator.ml:1918' if marker else '')
+    raises = body_kind in ('none', 'empty')
+    body = [ELEMS[x] for x in elems] if body_kind == 'list' else BODIES[body_kind]
+    text = ('' if body_kind == 'empty' else '<html>Internal error</html>' if raises else json.dumps(body)) + \
+        (' Assert_failure src/lib_shell/prevalidator.ml:1918' if marker else '')
 
     class R:
         headers = {'content-type': ctype} if ctype else {}
-        status_code = 500
+        status_code = case.get('status', 500)
 
         def json(self):
-            if body is None:
+            if raises:
                 raise ValueError('no json')
             return body
     R.text = text
-    got = N._is_transient_response(R())
     want = spec_transient(ctype, body_kind, elems, marker)
+    try:
+        got = N._is_transient_response(R())
+    except Exception as x:   # noqa  the classifier must answer on every body a server can send
+        return True, f'_is_transient_response(content-type={ctype!r}, body={body_kind}{elems}, prevalidator marker={marker}) raised {type(x).__name__}: {x}, specification {want}'
     return got != want, f'_is_transient_response(content-type={ctype!r}, body={body_kind}{elems}, prevalidator marker={marker}) = {got}, specification {want}'
 
 
@@ -223,9 +353,11 @@ def run_classifier(ck):
     names = list(ELEMS)
     for ctype in ('application/json', 'text/plain', None):
         for marker in (False, True):
-            shapes = [('none', ()), ('dict', ())] + [('list', c) for k in range(0, 4) for c in itertools.product(names, repeat=k)]
+            shapes = [(b, ()) for b in BODIES] + [('list', c) for k in range(0, 4) for c in itertools.product(names, repeat=k)]
             for body_kind, elems in shapes:
-                case = dict(kind='classifier', ctype=ctype, body_kind=body_kind, elems=list(elems), marker=marker)
+                # the verdict may not depend on WHICH 5xx it is: the status alphabet is spread over the shapes
+                status = (500, 502, 503, 504, 599, 501)[n % 6]
+                case = dict(kind='classifier', ctype=ctype, body_kind=body_kind, elems=list(elems), marker=marker, status=status)
                 b, info = native_classifier(case)
                 n += 1
                 ck.evaluate(('classifier', ctype, body_kind, tuple(sorted(set(elems))), marker))
@@ -234,7 +366,7 @@ def run_classifier(ck):
                     if bad <= 3:
                         ck.violation('_is_transient_response::ensures.spec', info, case=case, replay='props.C26_P:replay',
                                      wclass=f'classifier:{sorted(set(elems))}')
-    ck.obligation(f'_is_transient_response::ensures.spec[exhaustive over {n} response shapes: error lists of length 0..3 over 6 element kinds × content type × marker]',
+    ck.obligation(f'_is_transient_response::ensures.spec[exhaustive over {n} response shapes: error lists of length 0..3 over {len(names)} element kinds, {len(BODIES)} non-list bodies × content type × marker]',
                   'failed' if bad else 'discharged', 'S', 'enumeration', 0.0)
 
 
@@ -245,8 +377,9 @@ def run_P(ck):
               '_is_transient_response and RpcError.from_response are used through their contracts (checked in C26_R / C27)')
     ck.trust('PyVC encoding of the Python subset (DESIGN.md 3.2)')
     ck.trust('z3 5.1')
-    eng = Engine()
-    run_harness(ck, eng, harness(), 'RpcNode.request')
-    report(ck, eng, [('', 'props.C26_P:replay', native, None)])
-    functions_interpreted(ck, eng)
+    for scn in SCENARIOS:
+        eng = Engine()
+        run_harness(ck, eng, harness(scn), 'RpcNode.request' + ('' if scn == 'fresh' else f'[{scn}]'))
+        report(ck, eng, [('', 'props.C26_P:replay', native, None)])
+        functions_interpreted(ck, eng)
     run_classifier(ck)
